@@ -235,7 +235,9 @@ class TlsServerName(Vector):
 @attr.s
 class TlsExtensionServerNameClient(TlsExtensionParsed):
     host_name = attr.ib(validator=attr.validators.instance_of(six.string_types))
-    name_type = attr.ib(validator=attr.validators.in_(TlsServerNameType), default=TlsServerNameType.HOST_NAME)
+    name_type = attr.ib(
+        converter=TlsServerNameType, validator=attr.validators.in_(TlsServerNameType), default=TlsServerNameType.HOST_NAME
+    )
 
     @host_name.validator
     def _host_name_validator(self, _, value):
